@@ -11,6 +11,8 @@ type FSig struct {
 	P    []string
 	R    []string
 	Mode string // named | blank | unnamed | reserved : how the parameters of the PRESENTED function type are named
+	// NamedResults: the presented function type names its results (used for ToError)
+	NamedResults bool
 }
 
 // FItem is one functional item: source text (declarations + registration) and classification.
@@ -418,14 +420,24 @@ func ToErrorItem(id string, s FSig) FItem {
 	}
 	rets = append(rets, fmt.Sprintf("mon.RetBool(%q%s)", id, prefixComma(as)))
 	sb.WriteString(join(rets) + "\n}\n\n")
-	fmt.Fprintf(&sb, "var F%s %s = impl%s\n\n", id, ftypeOf(s.P, 0, rr, s.Mode), id)
+	ft := ftypeOf(s.P, 0, rr, s.Mode)
+	if s.NamedResults {
+		// the presented function type names its results (value, ..., ok)
+		var rn []string
+		for i, t := range s.R {
+			rn = append(rn, fmt.Sprintf("value%d %s", i, t))
+		}
+		rn = append(rn, "ok bool")
+		ft = ftypeOf(s.P, 0, nil, s.Mode) + " (" + strings.Join(rn, ", ") + ")"
+	}
+	fmt.Fprintf(&sb, "var F%s %s = impl%s\n\n", id, ft, id)
 	rs, ds := vars("r", 0, len(s.R)), vars("d", 0, len(s.R))
 	var body strings.Builder
 	fmt.Fprintf(&body, "\t\te := errors.New(\"supplied error\")\n\t\tw := deriveToError%s(e, F%s)\n\t\tseenT, seenF := false, false\n\t\tfor i := 0; i < t.N*2; i++ {\n%s\t\t\tt.Reset()\n\t\t\t%s := w(%s)\n\t\t\tt.Expect(\"toerror\", mon.C(%q%s))\n\t\t\tt.Pause()\n\t\t\t%s := impl%s(%s)\n\t\t\tt.Resume()\n%s",
 		id, id, argDecls(s.P, "\t\t\t"), join(append(append([]string{}, rs...), "err")), join(as), id, prefixComma(as), join(append(append([]string{}, ds...), "ok")), id, join(as), sameAll("toerror", rs, ds, "\t\t\t"))
 	body.WriteString("\t\t\tif ok {\n\t\t\t\tseenT = true\n\t\t\t\tmon.SameErr(t, \"toerror/true-gives-nil\", err, nil)\n\t\t\t} else {\n\t\t\t\tseenF = true\n\t\t\t\tmon.SameErr(t, \"toerror/false-gives-supplied-error\", err, e)\n\t\t\t}\n\t\t}\n\t\t_, _ = seenT, seenF\n")
 	shape := shapeOf("toerror", s)
-	tags := []string{"kind:toerror", "mode:" + s.Mode, fmt.Sprintf("results:%d", len(s.R)), fmt.Sprintf("params:%d", len(s.P))}
+	tags := []string{"kind:toerror", "mode:" + s.Mode, fmt.Sprintf("results:%d", len(s.R)), fmt.Sprintf("params:%d", len(s.P)), fmt.Sprintf("named-results:%v", s.NamedResults)}
 	sb.WriteString(reg(id, shape, tags, body.String()))
 	return FItem{ID: id, Kind: "toerror", Shape: shape, Tags: tags, Src: sb.String()}
 }
